@@ -22,11 +22,17 @@ type Mode int
 const (
 	LongLived Mode = iota
 	Persisted
+	// KeptState: a new engine for every request, built WithState/WithMemory around state and cache objects
+	// the application keeps in memory itself (no persister) - a server holding its sessions in a map.
+	KeptState
 )
 
 func (m Mode) String() string {
 	if m == LongLived {
 		return "long-lived"
+	}
+	if m == KeptState {
+		return "kept-state"
 	}
 	return "persisted"
 }
@@ -113,10 +119,12 @@ func (s *Session) newEngine() (*engine.DefaultEngine, *persist.Persister) {
 		pe = persist.NewPersister(store)
 		en = en.WithPersister(pe)
 	} else {
-		s.St = state.NewState(s.Cfg.FlagCount)
-		s.Ca = cache.NewCache()
-		if s.Cfg.CacheSize > 0 {
-			s.Ca = s.Ca.WithCacheSize(s.Cfg.CacheSize)
+		if s.Mode != KeptState || s.St == nil {
+			s.St = state.NewState(s.Cfg.FlagCount)
+			s.Ca = cache.NewCache()
+			if s.Cfg.CacheSize > 0 {
+				s.Ca = s.Ca.WithCacheSize(s.Cfg.CacheSize)
+			}
 		}
 		en = en.WithState(s.St).WithMemory(s.Ca)
 	}
